@@ -37,6 +37,8 @@ def run(ck: Check, repo: Repo) -> None:
     _retrieve(ck, repo)
     from ._c11_r3b import run_r3b
     run_r3b(ck, repo)
+    from ._c11_r5 import run_r5
+    run_r5(ck, repo)
 
 
 def _setitem(ck: Check, repo: Repo) -> None:
